@@ -18,6 +18,21 @@
 (* Element/key types ("instantiations"): int, str, pair = (int, int),      *)
 (* spair = (str, str) whose strings contain ", ". Values are the tagged    *)
 (* records of SyltValues; floats are dyadic (FloatV).                      *)
+(*                                                                         *)
+(* Reading of `div` and `floor`: FLOOR semantics on all operands.          *)
+(*   div(a, b) = floor(a / b)   for b # 0 (rounding towards minus          *)
+(*   infinity, the meaning `div` has in languages that distinguish div     *)
+(*   from quot, Lua's `//`, and what the library states with               *)
+(*   math.floor(a / b)), so  0 <= a - b * div(a, b) < b  for b > 0 and     *)
+(*   b < a - b * div(a, b) <= 0  for b < 0;  floor(x) is the largest int   *)
+(*   <= x, also for negative x (floor(-0.5) = -1).                         *)
+(*   Universe: div on a \in -7..7, b \in -3..3 \ {0}; floor on ints -3..3  *)
+(*   and on all half-steps in [-2, 2]. div(a, 0) is not specified.         *)
+(*                                                                         *)
+(* This module models ONE container per behaviour. Value semantics ACROSS  *)
+(* containers (a container made by map / filter / from_list / ... is       *)
+(* independent of what it was made from) is module SyltShare, which        *)
+(* extends this one with several registers.                                *)
 (***************************************************************************)
 EXTENDS SyltValues, Json, IOUtils
 
@@ -192,6 +207,11 @@ ArgClass(o) ==
   ELSE IF kind = "dict" /\ o.op \in {"update", "get", "remove", "contains_key"}
     THEN (IF o.a[1] \in DOMAIN st THEN "present" ELSE "absent")
   ELSE IF kind = "set" /\ o.op \in {"add", "contains", "remove"} THEN (IF o.a[1] \in st THEN "present" ELSE "absent")
+  ELSE IF kind = "helper" /\ o.op = "div"
+    THEN (IF o.a[1].v % Abs(o.a[2].v) = 0 THEN "exact"
+          ELSE IF (o.a[1].v < 0) # (o.a[2].v < 0) THEN "inexact-signs-differ" ELSE "inexact-signs-agree")
+  ELSE IF kind = "helper" /\ o.op = "floor"
+    THEN (IF o.a[1].k = "int" \/ o.a[1].d = 0 THEN "whole" ELSE IF o.a[1].n < 0 THEN "negative-fraction" ELSE "positive-fraction")
   ELSE "-"
 
 Emit(t, o, r, s2) ==
@@ -274,14 +294,15 @@ HClamp == kind = "helper" /\ \E nk \in NumKinds : \E x, lo, hi \in Nums(nk) :
              /\ HStep(nk, Op("clamp", <<x, lo, hi>>), IF NumLt(x, lo) THEN lo ELSE IF NumLt(hi, x) THEN hi ELSE x)
 HSign  == kind = "helper" /\ \E nk \in NumKinds : \E a \in Nums(nk) :
              HStep(nk, Op("sign", <<a>>), IF a.k = "int" THEN IntV(Sgn(a)) ELSE FloatV(Sgn(a), 0))
-\* div / floor only where rounding down and rounding towards zero agree (the documentation does not say which)
-HDiv   == kind = "helper" /\ \E a, b \in Ints :
-             /\ b.v # 0
-             /\ (Abs(a.v) % Abs(b.v) = 0) \/ (Sgn(a) * Sgn(b) >= 0)
-             /\ HStep("int", Op("div", <<a, b>>), IntV(Sgn(a) * Sgn(b) * (Abs(a.v) \div Abs(b.v))))
+\* div and floor round DOWN (towards minus infinity) on every operand, see the module comment.
+\* (TLC's \div is the floored division for a positive divisor; floor(a / b) = floor((-a) / (-b)).)
+FloorDiv(a, b) == IF b > 0 THEN a \div b ELSE (0 - a) \div (0 - b)
+DivA == {IntV(i) : i \in (0 - 7)..7}
+DivB == {IntV(i) : i \in ((0 - 3)..3) \ {0}}
+HDiv   == kind = "helper" /\ \E a \in DivA, b \in DivB :
+             HStep("int", Op("div", <<a, b>>), IntV(FloorDiv(a.v, b.v)))
 HFloor == kind = "helper" /\ \E nk \in NumKinds : \E a \in Nums(nk) :
-             /\ a.k = "float" => (a.d = 0 \/ a.n > 0)
-             /\ HStep(nk, Op("floor", <<a>>), IF a.k = "int" THEN a ELSE IntV(a.n \div Pow2(a.d)))
+             HStep(nk, Op("floor", <<a>>), IF a.k = "int" THEN a ELSE IntV(a.n \div Pow2(a.d)))
 
 MaybeTypes == {"int", "str", "pair"}
 Maybes(t) == {None, Just(ValSeq(t)[1]), Just(ValSeq(t)[2])}
@@ -374,7 +395,9 @@ HelperSane(o, r) ==
   /\ o.op = "clamp" => Assert(~NumLt(r, o.a[2]) /\ ~NumLt(o.a[3], r) /\ ((~NumLt(o.a[1], o.a[2]) /\ ~NumLt(o.a[3], o.a[1])) => r = o.a[1]), "clamp")
   /\ o.op = "abs" => Assert(~NumLt(r, Zero(r)) /\ (r = o.a[1] \/ r = Negate(o.a[1])), "abs")
   /\ o.op = "sign" => Assert(r.k = o.a[1].k /\ Sgn(r) = Sgn(o.a[1]), "sign keeps the number type")
-  /\ o.op = "div" => Assert(Abs(o.a[1].v - r.v * o.a[2].v) < Abs(o.a[2].v), "div: |a - q*b| < |b|")
+  /\ o.op = "div" => LET rest == o.a[1].v - r.v * o.a[2].v IN        \* the remainder has the sign of the divisor
+                      Assert(IF o.a[2].v > 0 THEN 0 <= rest /\ rest < o.a[2].v ELSE o.a[2].v < rest /\ rest <= 0,
+                             "div: 0 <= a - q*b < b (b > 0), b < a - q*b <= 0 (b < 0)")
   /\ o.op = "floor" => Assert(r.k = "int" /\ ~NumLt(o.a[1], r) /\ NumLt(o.a[1], IntV(r.v + 1)), "floor")
 
 TransitionSane ==
